@@ -438,7 +438,15 @@ func (r *spRunner) takePub(c *spConn, p *protocol.Publication, where string) (sp
 		return f, &spVerdict{"wrong-data:" + where, fmt.Sprintf("%s key %s version %d delta=%v: reconstructed payload %.60q was never the backend's value of this key; connection held %s", where, p.Key, p.Version, p.Delta, string(a.Data), desc)}
 	}
 	if r.versioned && defined && want != f.Data {
-		return f, &spVerdict{"wrong-data:" + where, fmt.Sprintf("%s key %s version %d: reconstructed payload #%d, the backend defined #%d for this version", where, p.Key, p.Version, f.Data, want)}
+		sig := "wrong-data:"
+		r.mu.Lock()
+		for dk, id := range r.defs {
+			if id == f.Data && strings.HasSuffix(dk, fmt.Sprintf("|%s|%d", p.Key, p.Version)) {
+				sig = "stale-epoch-data:" // the payload of this key/version under ANOTHER epoch than the subscription's
+			}
+		}
+		r.mu.Unlock()
+		return f, &spVerdict{sig + where, fmt.Sprintf("%s key %s version %d: reconstructed payload #%d, the backend defined #%d for this version under the subscription's epoch %q", where, p.Key, p.Version, f.Data, want, c.epoch)}
 	}
 	return f, nil
 }
@@ -944,6 +952,29 @@ func (r *spRunner) run(bi int, beh []map[string]any, compare bool, res *vh.Resul
 					drift(fmt.Sprintf("frames of %s differ after %s: real %s, model %s", name, act, vh.J(c.seen), vh.J(mo)))
 					break
 				}
+			}
+		}
+	}
+	if completed == 1 {
+		// a behaviour may end inside a run (a TLC counterexample stops at the violating step): let the threads finish
+		// and judge what the connections received in the end (monitors only)
+		if wReleased && r.pending["w"] == nil {
+			r.quiesceWorker()
+		}
+		for _, t := range []string{"p", "r"} {
+			if started[t] && r.pending[t] == nil {
+				select {
+				case <-r.done[t]:
+				case <-time.After(spGateWait):
+				}
+			}
+		}
+		for name, c := range r.conns {
+			if closed, _ := c.conn.T.Closed(); !closed {
+				c.conn.Barrier(2 * time.Second)
+			}
+			for _, v := range r.consume(c) {
+				violate(v, name)
 			}
 		}
 	}
